@@ -402,3 +402,222 @@ Proof.
   rewrite Ek, Hk. cbn [bind]. f_equal. f_equal.
   change (map zero_ri) with (map erase). rewrite number_from_eq, sort_number_is_stable, erase_hold. reflexivity.
 Qed.
+
+(* ---------------------------------------------------------------- numbering keeps what does not mention the read index *)
+Lemma number_from_In k l x : In x (Summary.number_from k l) -> exists y i, In y l /\ x = set_ri y i.
+Proof.
+  revert k. induction l as [|y l IH]; intros k H; cbn [Summary.number_from] in H; [destruct H|].
+  destruct H as [<-|H].
+  - exists y, k. split; [left; reflexivity | reflexivity].
+  - destruct (IH _ H) as (z & i & Hz & E). exists z, i. split; [right; exact Hz | exact E].
+Qed.
+Lemma number_from_Forall (P : tx -> Prop) k l :
+  (forall t i, P t -> P (set_ri t i)) -> Forall P l -> Forall P (Summary.number_from k l).
+Proof.
+  intros HP H. apply Forall_forall. intros x Hx. apply number_from_In in Hx as (y & i & Hy & ->).
+  apply HP. rewrite Forall_forall in H. apply H. exact Hy.
+Qed.
+Lemma Forall_sort_txs (P : tx -> Prop) l : Forall P l -> Forall P (sort_txs l).
+Proof. intros H. apply Forall_forall. intros x Hx. apply (proj1 (In_sort_txs _ _)) in Hx. rewrite Forall_forall in H. apply H. exact Hx. Qed.
+Lemma Forall_filter {T} (P : T -> Prop) f l : Forall P l -> Forall P (filter f l).
+Proof. intros H. apply Forall_forall. intros x Hx. apply filter_In in Hx as [Hx _]. rewrite Forall_forall in H. apply H. exact Hx. Qed.
+
+Lemma K3_of_false latest dflt r rg :
+  summary_ranges latest (dflt :: r) = Some rg -> K3_of latest (dflt :: r) = false ->
+  forall x, In x (summary_afs rg (dflt :: r)) ->
+    let post := d_post (nth (snd x) (dflt :: r) dflt) in
+    s_sh post = Q2Qc 0 -> forall c, s_acb post = Some c -> c = Q2Qc 0.
+Proof.
+  intros Hrg H x Hx post Hz c Hc. unfold K3_of in H. rewrite Hrg in H.
+  destruct (Qceqb_spec c 0) as [E|E]; [exact E|]. exfalso.
+  match type of H with existsb ?f ?l = false => assert (Ht : existsb f l = true); [|congruence] end.
+  apply existsb_exists. exists x. split; [exact Hx|]. fold post.
+  rewrite Hz, Hc, Qceqb_refl. cbn [andb]. destruct (Qceqb_spec c 0); [contradiction | reflexivity].
+Qed.
+
+Definition like_of (sec : N) : tx :=
+  {| t_sec := sec; t_td := 0; t_sd := 0; t_act := Roc 0 0; t_af := default_aff; t_glob := false; t_ri := 0 |}.
+
+(* ---------------------------------------------------------------- the round trip at the model's entry points
+   one security, no rows entered for all affiliates, simple mode, any date *)
+Theorem roundtrip_single_security regof sec latest rows0 :
+  let rows := Summary.number_from 0 rows0 in
+  Forall (rowQ regof sec) rows0 -> Forall spec_nz rows0 -> Forall sell_pos rows0 ->
+  history_ok exact rows = true ->
+  K_summary_buy_in_window exact latest false rows = false ->
+  K_zero_balance_acb exact latest rows = false ->
+  (forall sums, make_summary exact latest (fst (sec_run exact rows)) false = Ok sums -> through_csv sums = sums) ->
+  roundtrip_ok exact latest false rows = true.
+Proof.
+  intros rows HQ0 Hnz0 Hsp0 Hok HK1 HK3 Hcsv.
+  assert (HQ : Forall (rowQ regof sec) rows) by (apply number_from_Forall; [intros t i H; exact H | exact HQ0]).
+  assert (Hnz : Forall spec_nz rows) by (apply number_from_Forall; [intros t i H; exact H | exact Hnz0]).
+  assert (Hsp : Forall sell_pos rows) by (apply number_from_Forall; [intros t i H; exact H | exact Hsp0]).
+  assert (Hng0 : Forall (fun t => t_glob t = false) rows0).
+  { eapply Forall_impl; [|exact HQ0]. intros x Hx. apply Hx. }
+  assert (Hng : Forall (fun t => t_glob t = false) rows).
+  { eapply Forall_impl; [|exact HQ]. intros x Hx. apply Hx. }
+  set (L := sort_txs rows).
+  pose proof (Forall_sort_txs _ _ HQ) as HQL. pose proof (Forall_sort_txs _ _ Hnz) as HnzL.
+  pose proof (Forall_sort_txs _ _ Hsp) as HspL. fold L in HQL, HnzL, HspL.
+  unfold roundtrip_ok, history_ok, K_summary_buy_in_window, K_zero_balance_acb in *.
+  rewrite (sec_run_noglob exact rows Hng) in *. fold L in Hok, HK1, HK3, Hcsv |- *.
+  destruct (run exact None L) as [ds o] eqn:Erun. cbn [fst snd] in *. destruct o; [discriminate|].
+  rewrite run_None in Erun. fold st0 in Erun.
+  assert (HsL : sd_sorted L).
+  { apply sd_sorted_erase. unfold L, rows. rewrite number_from_eq, sort_number_is_stable. apply sort_sd_sorted. }
+  pose proof (run_loop_sorted exact _ _ _ _ _ HsL Erun) as Hdss.
+  pose proof (run_loop_sfl_neg _ _ _ _ _ Erun) as Hneg.
+  pose proof (run_loop_rowQ regof sec L [] st0 ds HQL (Forall_nil _) Erun) as HdQ.
+  pose proof (run_loop_dprop sfl_sell delta_sfl_sell _ _ _ _ _ Erun) as Hss.
+  assert (Hrow : Forall row_ok ds).
+  { eapply (run_loop_ok exact); [exact Erun|]. exact (proj2 (proj2 st0_inv2)). }
+  destruct (run_cut exact latest L [] st0 ds HsL Erun) as (dsLe & bLe & stLe & dsT & ELe & ET & Eds & HLe & HT).
+  set (Lle := filter (fun t => t_sd t <=? latest) L) in *. set (T := filter (fun t => latest <? t_sd t) L) in *.
+  assert (HTn : Forall (fun d => ~ d_sd d <= latest) dsT).
+  { eapply Forall_impl; [|exact HT]. intros x Hx. cbv beta in Hx. lia. }
+  destruct (summary_ranges latest ds) as [rg|] eqn:Erg.
+  2: { (* nothing settles on or before the date *)
+    pose proof (summary_ranges_none latest ds Hdss Erg) as Ecnt.
+    assert (EdsLe : dsLe = []).
+    { destruct dsLe as [|x dsLe]; [reflexivity|]. exfalso. rewrite Eds in Ecnt. cbn [app cnt_le] in Ecnt.
+      assert (E : latest <? d_sd x = false) by (apply Z.ltb_ge; exact (Forall_inv HLe)). rewrite E in Ecnt. discriminate. }
+    subst dsLe. destruct (run_part_nil _ _ _ _ _ _ _ ELe) as (ELle & -> & ->).
+    assert (Hms : make_summary exact latest ds false = Ok []).
+    { unfold make_summary, make_summary_parts. rewrite Erg. destruct ds; reflexivity. }
+    refine (assemble latest rows0 ds [] dsT [] T [] Hng0 eq_refl Hms (Hcsv _ Hms) (Forall_nil _) (SSorted_nil _)
+              (Forall_nil _) _ Eds HLe HT (Forall_nil _)).
+    cbn [app]. rewrite run_None. fold st0. exact ET. }
+  (* the three parts *)
+  destruct (summary_ranges_cut latest ds rg Hdss Erg)
+    as (dsP & dsK & dsT' & c1 & Eds' & El1 & El2 & _ & Hc1 & HcP & HcK & HcT & Hsfl).
+  assert (HPK : Forall (fun d => d_sd d <= latest) (dsP ++ dsK)).
+  { apply Forall_app. split.
+    - eapply Forall_impl; [|exact HcP]. intros x Hx. cbv beta in Hx. lia.
+    - eapply Forall_impl; [|exact HcK]. intros x [_ Hx]. exact Hx. }
+  assert (HTn' : Forall (fun d => ~ d_sd d <= latest) dsT').
+  { eapply Forall_impl; [|exact HcT]. intros x Hx. cbv beta in Hx. lia. }
+  rewrite Eds, app_assoc in Eds'.
+  destruct (split_unique (fun d => d_sd d <= latest) _ _ _ _ Eds' HLe HPK HTn HTn') as [-> <-]. clear Eds' HTn'.
+  assert (HsLle : sd_sorted Lle) by (apply filter_sorted; exact HsL).
+  destruct (run_part_cut exact c1 Lle [] st0 T _ _ _ HsLle ELe) as (ds1 & B1 & st1 & ds2 & EP & EK & E12 & H1 & H2).
+  set (P := filter (fun t => t_sd t <=? c1) Lle) in *. set (K := filter (fun t => c1 <? t_sd t) Lle) in *.
+  assert (H2n : Forall (fun d => ~ d_sd d <= c1) ds2).
+  { eapply Forall_impl; [|exact H2]. intros x Hx. cbv beta in Hx. lia. }
+  assert (HKn : Forall (fun d => ~ d_sd d <= c1) dsK).
+  { eapply Forall_impl; [|exact HcK]. intros x [Hx _]. lia. }
+  destruct (split_unique (fun d => d_sd d <= c1) _ _ _ _ E12 HcP H1 HKn H2n) as [<- <-]. clear E12 H1 H2 H2n.
+  assert (EL : P ++ K ++ T = L).
+  { rewrite app_assoc. unfold P, K. rewrite <- (sorted_split c1 Lle HsLle). unfold Lle, T. symmetry. apply sorted_split. exact HsL. }
+  (* the parts of the reported rows *)
+  rewrite Eds, <- app_assoc in HdQ, Hrow, Hss.
+  apply Forall_app in HdQ as [HdQP HdQKT]. apply Forall_app in Hrow as [HrowP _].
+  apply Forall_app in Hss as [_ HssKT]. apply Forall_app in HssKT as [HssK _].
+  assert (HgoodP : Forall (gooddelta regof) dsP).
+  { eapply Forall_impl; [|exact HdQP]. intros x Hx. apply Hx. }
+  assert (HgoodKT : Forall (gooddelta regof) (dsK ++ dsT)).
+  { eapply Forall_impl; [|exact HdQKT]. intros x Hx. apply Hx. }
+  assert (Hdne : exists dflt r, ds = dflt :: r).
+  { destruct ds as [|dflt r]; [cbn in Erg; discriminate|]. eauto. }
+  destruct Hdne as (dflt & r & Edr).
+  (* the holdings *)
+  pose proof (run_part_obs _ _ _ _ _ _ _ EP) as Hobs1.
+  assert (Eafs0 : summary_afs rg ds = afs_of dsP).
+  { unfold summary_afs, first_unsum in *. destruct (rg_summarizable rg) as [s|].
+    - rewrite Eds, <- app_assoc, firstn_app, <- El1, firstn_all, Nat.sub_diag. cbn [firstn]. rewrite app_nil_r. reflexivity.
+    - destruct dsP; [reflexivity | discriminate]. }
+  assert (HK3' : forall x, In x (afs_of dsP) -> let post := d_post (nth (snd x) (dsP ++ dsK ++ dsT) dflt) in
+             s_sh post = Q2Qc 0 -> forall c, s_acb post = Some c -> c = Q2Qc 0).
+  { intros x Hx. rewrite <- Eafs0 in Hx. rewrite Edr in HK3, Erg, Hx.
+    pose proof (K3_of_false latest dflt r rg Erg HK3 x Hx) as Hk3. cbv zeta in Hk3 |- *.
+    rewrite <- Edr, Eds, <- app_assoc in Hk3. exact Hk3. }
+  destruct (holdings_at_cut regof dsP (dsK ++ dsT) dflt st1 Hobs1 HrowP HgoodP HK3')
+    as (Hnd & Hhok & Hdated & Hx & Hobs).
+  set (hs := hs_of (dsP ++ dsK ++ dsT) dflt (afs_of dsP)) in *.
+  set (like := like_of sec).
+  destruct (sort_sd_hold like hs) as (hs' & Hperm & Esort).
+  assert (Hnd' : NoDup (map (fun h : hold_row => af_id (fst (fst h))) hs')).
+  { eapply Permutation_NoDup; [apply Permutation_map; symmetry; exact Hperm | exact Hnd]. }
+  assert (Hhok' : Forall (fun h : hold_row => holding_ok (fst (fst h)) (snd (fst h))) hs').
+  { eapply Permutation_Forall; [symmetry; exact Hperm | exact Hhok]. }
+  assert (Hdated' : Forall (fun h : hold_row => exists d, In d dsP /\ snd h = d_sd d) hs').
+  { eapply Permutation_Forall; [symmetry; exact Hperm | exact Hdated]. }
+  assert (Hfind : forall af, find_hold hs' af = find_hold hs af).
+  { intros af. unfold find_hold.
+    destruct (find (fun h : hold_row => N.eqb (af_id (fst (fst h))) (af_id af)) hs) as [h|] eqn:Ef.
+    - apply find_some in Ef as [Hin Eid]. apply N.eqb_eq in Eid.
+      assert (Hin' : In h hs') by (eapply Permutation_in; [symmetry; exact Hperm | exact Hin]).
+      clear -Hnd' Hin' Eid. induction hs' as [|y l IH]; [destruct Hin'|]. cbn [find].
+      apply NoDup_cons_iff in Hnd' as [Hni Hnd']. cbn [map] in Hni.
+      destruct Hin' as [->|Hin'].
+      + rewrite Eid, N.eqb_refl. reflexivity.
+      + destruct (N.eqb_spec (af_id (fst (fst y))) (af_id af)) as [E|_]; [|apply IH; assumption].
+        exfalso. apply Hni. apply in_map_iff. exists h. split; [congruence | exact Hin'].
+    - destruct (find (fun h : hold_row => N.eqb (af_id (fst (fst h))) (af_id af)) hs') as [h|] eqn:Ef'; [|reflexivity].
+      apply find_some in Ef' as [Hin Eid]. exfalso.
+      assert (Hin0 : In h hs) by (eapply Permutation_in; [exact Hperm | exact Hin]).
+      rewrite (find_none _ _ Ef h Hin0) in Eid. discriminate. }
+  assert (Hobs' : forall af, goodaf regof af -> obs st1 af = held_obs hs' af (Q2Qc 0, if af_reg af then None else Some (Q2Qc 0))).
+  { intros af Hg. rewrite (Hobs af Hg). unfold held_obs. rewrite Hfind. reflexivity. }
+  assert (Hpos' : Forall (fun h : hold_row => (0 < s_sh (snd (fst h)))%Qc) hs').
+  { eapply Forall_impl; [|exact Hhok']. intros h [Hp _]. exact Hp. }
+  pose proof (total_from_obs regof st1 hs' (run_part_inv2 _ _ _ _ _ _ _ EP st0_inv2) Hnd' Hpos' Hobs') as Htot.
+  destruct (keep_all_ok dsK HssK) as (K' & Hk).
+  (* outside K_summary_buy_in_window *)
+  assert (Hper : forall x, In x (afs_of dsP) -> let d := nth (snd x) (dflt :: r) dflt in
+             t_sec (d_tx d) = t_sec like /\ ((0 < s_sh (d_post d))%Qc -> holding_ok (fst x) (d_post d))).
+  { intros x Hxin. rewrite <- Edr, Eds, <- app_assoc. destruct (Hx x Hxin) as [Hin Hho]. split; [|exact Hho].
+    rewrite Forall_forall in HdQP. destruct (HdQP _ Hin) as (_ & Hsec & _). exact Hsec. }
+  assert (Eds3 : dflt :: r = dsP ++ dsK ++ dsT) by (rewrite <- Edr, Eds, <- app_assoc; reflexivity).
+  rewrite Edr in Erg.
+  destruct (make_summary_simple like latest dflt r rg dsP dsK dsT K' Eds3 Erg El1 El2 Hk Hper) as [_ Hparts].
+  rewrite Eds3 in Hparts at 2. fold hs in Hparts. rewrite Esort in Hparts.
+  assert (HK1' : forall h d, In h hs' -> In d (dsK ++ dsT) -> plain_loss_sell d = true -> within_after (snd h) (d_sd d) = false).
+  { intros h d Hh Hd Hp. rewrite Edr in HK1.
+    assert (Hsk : In d (skipn (first_unsum rg) (dflt :: r))).
+    { rewrite Eds3, <- El1, skipn_app, skipn_all, Nat.sub_diag. exact Hd. }
+    pose proof (K1_of_false exact latest false (dflt :: r) rg _ _ Erg Hparts HK1 (hold_tx like h) d
+                  (in_map _ _ _ Hh) ltac:(destruct h as [[a s] dt]; reflexivity) Hsk Hp) as Hw.
+    destruct h as [[a s] dt]. exact Hw. }
+  assert (HsPKT : sd_sorted (P ++ K ++ T)) by (rewrite EL; exact HsL).
+  assert (HnzKT : Forall spec_nz (K ++ T)).
+  { apply Forall_app. split; [unfold K, Lle | unfold T]; repeat apply Forall_filter; exact HnzL. }
+  assert (HspK : Forall sell_pos K) by (unfold K, Lle; repeat apply Forall_filter; exact HspL).
+  rewrite <- Edr in Erg. rewrite Eds, <- app_assoc in Erg.
+  destruct (roundtrip_ranges regof like hs' latest rg P K T dsP B1 st1 dsK bLe stLe dsT K'
+              HsPKT EP EK ET Erg El1 El2 Hnd' Hhok' Htot Hobs' HgoodKT Hdated' HK1' Hk HnzKT HspK)
+    as (dsG & dsK' & Erun2 & _ & _ & _ & Hsd).
+  (* assemble *)
+  set (G := map (hold_tx like) hs') in *.
+  assert (HGle : Forall (fun t => t_sd t <= c1) G).
+  { unfold G. apply Forall_map. apply Forall_forall. intros [[a s] dt] Hh.
+    rewrite Forall_forall in Hdated'. destruct (Hdated' _ Hh) as (d & Hd & Hdt). cbn [snd] in Hdt.
+    cbn [hold_tx summary_buy mk_tx t_sd]. rewrite Hdt. rewrite Forall_forall in HcP. apply HcP. exact Hd. }
+  pose proof (keep_all_sd _ _ Hk) as EsdK.
+  assert (HK'sd : Forall (fun t => c1 < t_sd t /\ t_sd t <= latest) K').
+  { apply Forall_forall. intros t Ht. apply (in_map t_sd) in Ht. rewrite EsdK in Ht.
+    apply in_map_iff in Ht as (d & <- & Hd). rewrite Forall_forall in HcK. apply HcK. exact Hd. }
+  assert (HGKle : Forall (fun t => t_sd t <= latest) (G ++ K')).
+  { apply Forall_app. split.
+    - eapply Forall_impl; [|exact HGle]. intros x Hxx. cbv beta in Hxx. lia.
+    - eapply Forall_impl; [|exact HK'sd]. intros x [_ Hxx]. exact Hxx. }
+  assert (Hms : make_summary exact latest ds false = Ok (G ++ K')).
+  { unfold make_summary. rewrite Edr, Hparts. reflexivity. }
+  rewrite app_assoc in Erun2. rewrite (app_assoc dsG dsK' dsT) in Erun2.
+  assert (Eds4 : ds = (dsP ++ dsK) ++ dsT) by (rewrite Eds, <- app_assoc; reflexivity).
+  refine (assemble latest rows0 ds (dsP ++ dsK) dsT (G ++ K') T (dsG ++ dsK') Hng0 eq_refl Hms (Hcsv _ Hms) _ _ HGKle
+            Erun2 Eds4 HPK HT _).
+  - apply Forall_app. split.
+    + unfold G. apply Forall_map. apply Forall_forall. intros [[a s] dt] _. reflexivity.
+    + eapply keep_all_noglob; [exact Hk|]. apply Forall_app in HdQKT as [HdQK _].
+      eapply Forall_impl; [|exact HdQK]. intros x Hxx. apply Hxx.
+  - apply ss_app.
+    + rewrite <- Esort. apply sort_sd_sorted.
+    + apply sd_sorted_keys. rewrite EsdK. apply d_sorted_keys.
+      rewrite Eds, <- app_assoc in Hdss. apply ss_app_inv in Hdss as (_ & Hdss & _).
+      apply ss_app_inv in Hdss as (Hdss & _). exact Hdss.
+    + eapply Forall_impl; [|exact HGle]. intros x Hxx. cbv beta in Hxx.
+      eapply Forall_impl; [|exact HK'sd]. intros y [Hy _]. lia.
+  - eapply Forall_impl; [|exact Hsd]. intros d (g & Hg & ->).
+    rewrite Forall_forall in HGKle. apply HGKle. exact Hg.
+Qed.
